@@ -39,10 +39,31 @@ func c08R1(c *Ctx, r *Report) {
 	}
 	data := fn.Params[2]
 	decoders := []string{"formats/varint.Unpack8", "formats/varint.GetNextBlock", "formats/varint.Unpack16", "formats/varint.Unpack32", "formats/varint.Unpack64"}
+	// the input and everything re-sliced from it
+	var derived func(v ssa.Value, d int) bool
+	derived = func(v ssa.Value, d int) bool {
+		if d > 6 {
+			return false
+		}
+		switch x := v.(type) {
+		case *ssa.Parameter:
+			return x == data
+		case *ssa.Slice:
+			return derived(x.X, d+1)
+		case *ssa.Phi:
+			for _, e := range x.Edges {
+				if !derived(e, d+1) {
+					return false
+				}
+			}
+			return len(x.Edges) > 0
+		}
+		return false
+	}
 	k := 0
 	eachInstr(fn, func(in ssa.Instruction) {
 		sl, ok := in.(*ssa.Slice)
-		if !ok || sl.X != ssa.Value(data) {
+		if !ok || !derived(sl.X, 0) {
 			return
 		}
 		k++
@@ -105,8 +126,8 @@ func c08R1(c *Ctx, r *Report) {
 		}
 		// each decoder was applied to the input at the running offset (data or data[offset:])
 	})
-	if k < 3 {
-		r.Undecided(rule, fnKey(fn), fmt.Sprintf("expected >= 3 slices of the input, found %d", k))
+	if k < 2 {
+		r.Undecided(rule, fnKey(fn), fmt.Sprintf("expected >= 2 slices of the input, found %d", k))
 	}
 	// version accepted
 	verOK := false
